@@ -97,6 +97,21 @@ func buildFromDefinition(def *configDefinition, lc *loaderContext) (cfg *Config,
 		}
 	}
 
+	// a pipeline must not include itself, directly or through other pipelines
+	inclusion := make([]*scheduler.Stage, 0, len(def.Pipelines))
+	for k, stages := range def.Pipelines {
+		p := &scheduler.Stage{Name: k}
+		for _, stage := range stages {
+			if stage != nil && stage.Task == "" && stage.Pipeline != "" {
+				p.DependsOn = append(p.DependsOn, stage.Pipeline)
+			}
+		}
+		inclusion = append(inclusion, p)
+	}
+	if _, err = scheduler.NewExecutionGraph(inclusion...); err != nil {
+		return nil, fmt.Errorf("pipelines include each other: %w", err)
+	}
+
 	// to allow pipeline-to-pipeline links
 	for k := range def.Pipelines {
 		cfg.Pipelines[k], err = scheduler.NewExecutionGraph()
